@@ -328,6 +328,11 @@ def gen_plan(ctx, round_index, quick):  # pylint: disable=too-many-locals,too-ma
                          "codes": [(7 * i + rng.randint(0, 5)) % 120 for i in range(n)], "delays": delays,
                          "verbose": rng.random() < 0.5})
 
+    for k in (1, 3):
+        n = rng.choice([2, 3, 5])
+        main.append({"sid": sid("e"), "kind": "execute", "k": k, "n": n, "pattern": "repeat", "repeat": True,
+                     "codes": list(range(1, n + 1)), "delays": [0.0] * n, "verbose": False})
+
     # hazards: each plan runs in its own child with its own watchdog
     # functions whose return value is plain (nothing at all for some calls, as of a function working by side effect
     # or a lookup without an answer), also with the number of workers left to the default of a machine of m cores
@@ -734,6 +739,18 @@ def check_execute(ctx, book, sc, ev):
     codes = ev.get("codes")
     if codes is None or len(codes) != n:
         ctx.violate("length-differs", dict(facts, returned=ev.get("returned")), sc)
+        return False
+    if sc.get("repeat"):
+        ctx.count("op:execute_repeated_command")
+        facts["repeated_command"] = True
+        if ev.get("ran") != n:
+            ctx.violate("call-not-executed", dict(facts, executed=ev.get("ran"), calls=n), sc)
+            return False
+        if k == 1 and codes != list(range(1, n + 1)):
+            ctx.violate("return-codes-differ", dict(facts, got=codes[:8], sequential=list(range(1, n + 1))[:8]), sc)
+            return False
+        if sorted(codes) != list(range(1, n + 1)):
+            ctx.count("schedule:execute_repeated_command_counts_raced")
         return False
     stamps = ev.get("stamps") or []
     identity = True
